@@ -148,3 +148,12 @@ UNITS.append(Native(
           "layouts (one line / broken over lines: the loop variable grows with the position of the property); an "
           "offending value at each of 3 positions of each list (48 instances) + 2 valid ones: verify() must report "
           "exactly the false invariants, descriptions verbatim, path .prop[i]", args={}, timeout_s=600))
+
+UNITS.append(Native(
+    "the schemas generated for a variety of meta-models are valid schemas", ["C11", "C13"], "native.c11x:bounded",
+    kind="examples",
+    bound="18 meta-models (hostile texts with / without the */ description, constants of every primitive type, two "
+          "models with inheritance and invariants, a child adding three patterns to an inherited property, methods / "
+          "constructors with 0, 2, 3 arguments) through the JSON Schema and the XSD target: the 36 schemas that are "
+          "generated must be well-formed and valid for jsonschema (Draft 2019-09 meta-schema, every pattern compiles) "
+          "resp. xmlschema (XSD 1.0)", args={}, timeout_s=900))
